@@ -168,7 +168,15 @@ namespace CDNS {
             if (m_blocks_written > 0)
                 written += m_encoder.write_break();
 
-            m_encoder.rotate_output(out);
+            try {
+                m_encoder.rotate_output(out);
+            }
+            catch (...) {
+                // Closing the previous output failed, but the new output is already in use
+                m_blocks_written = 0;
+                throw;
+            }
+
             m_blocks_written = 0;
             return written;
         }
